@@ -18,6 +18,7 @@ import (
 	"strings"
 	"sync"
 	"sync/atomic"
+	"syscall"
 	"testing"
 	"time"
 )
@@ -63,7 +64,7 @@ type Ctx struct {
 // Main runs a harness body under a Ctx and writes the result file.
 func Main(t *testing.T, prop string, run func(c *Ctx)) {
 	c := &Ctx{T: t, Prop: prop, tier: os.Getenv("VERIF_TIER"), out: os.Getenv("VERIF_OUT"),
-		replay: os.Getenv("VERIF_REPLAY"), start: time.Now(), nshards: 1,
+		replay: os.Getenv("VERIF_REPLAY"), start: realNow(), nshards: 1,
 		states: map[uint64]struct{}{}, nontrivial: map[uint64]struct{}{}, outcomes: map[string]int64{},
 		vioClasses: map[string]int{}, notes: map[string]any{}, maxSamples: 6}
 	if c.tier == "" {
@@ -127,7 +128,7 @@ func (c *Ctx) Expired() bool {
 	if c.expired.Load() {
 		return true
 	}
-	if time.Now().After(c.deadline) {
+	if realNow().After(c.deadline) {
 		c.expired.Store(true)
 		return true
 	}
@@ -307,7 +308,7 @@ func (c *Ctx) write() {
 		"vio_classes": c.vioClasses,
 		"incomplete":  c.incomplete,
 		"notes":       c.notes,
-		"wall_s":      time.Since(c.start).Seconds(),
+		"wall_s":      realNow().Sub(c.start).Seconds(),
 	}
 	if c.out == "" {
 		b, _ := json.MarshalIndent(res, "", " ")
@@ -352,4 +353,28 @@ func Hash(parts ...any) uint64 {
 		h.Write([]byte{0xff})
 	}
 	return h.Sum64()
+}
+
+// BudgetSeconds returns the wall-clock budget of this run in seconds.
+func (c *Ctx) BudgetSeconds() float64 {
+	if s := os.Getenv("VERIF_BUDGET_S"); s != "" {
+		if f, err := strconv.ParseFloat(s, 64); err == nil {
+			return f
+		}
+	}
+	return 3600
+}
+
+// WriteAndExit writes the result file and exits the process; used by harnesses that cannot unwind
+// (e.g. goroutines parked inside a synctest bubble).
+func (c *Ctx) WriteAndExit() {
+	c.write()
+	os.Exit(0)
+}
+
+// realNow is the real wall clock even inside a testing/synctest bubble (where time.Now is virtual).
+func realNow() time.Time {
+	var tv syscall.Timeval
+	syscall.Gettimeofday(&tv)
+	return time.Unix(tv.Sec, tv.Usec*1000)
 }
